@@ -2411,6 +2411,96 @@ def restore_closures(tree, ref):
     return total
 
 
+def unname_lambdas(tree, ref):
+    """A nested function the reference does not have, whose body is one `return <expression>` and which is only handed on as a value
+    (never called by its name, never re-bound) is the lambda it replaced:  def retry(): return self._m(pk, p)  ...  Timer(t, retry)
+    ->  Timer(t, lambda: self._m(pk, p)).  Both read the enclosing variables when they run."""
+    known = set(ref.get('funcs', []))
+    total = 0
+    for q, fn in functions(tree):
+        pre = q + '.<locals>.'
+        for holder in list(_fn_walk(fn)):
+            for fld in ('body', 'orelse', 'finalbody'):
+                body = getattr(holder, fld, None)
+                if not isinstance(body, list):
+                    continue
+                for st in list(body):
+                    if not (isinstance(st, ast.FunctionDef) and (pre + st.name) not in known and not st.decorator_list):
+                        continue
+                    inner = st.body[1:] if _has_doc(st.body) else st.body
+                    a = st.args
+                    if len(inner) != 1 or not isinstance(inner[0], ast.Return) or inner[0].value is None or a.vararg or a.kwarg or a.kwonlyargs or a.posonlyargs:
+                        continue
+                    if any(isinstance(x, (ast.Yield, ast.YieldFrom, ast.Await, ast.NamedExpr)) for x in ast.walk(inner[0].value)):
+                        continue
+                    if _stores(fn.body).get(st.name, 0) != 0:
+                        continue
+                    uses = [x for x in ast.walk(fn) if isinstance(x, ast.Name) and x.id == st.name and isinstance(x.ctx, ast.Load)]
+                    called = [c for c in ast.walk(fn) if isinstance(c, ast.Call) and isinstance(c.func, ast.Name) and c.func.id == st.name]
+                    inside = {id(x) for x in ast.walk(st)}
+                    if not uses or called or any(id(u) in inside for u in uses):
+                        continue
+                    if sum(1 for x in ast.walk(fn) if isinstance(x, ast.FunctionDef) and x.name == st.name) != 1:
+                        continue
+                    lam = ast.Lambda(args=copy.deepcopy(a), body=inner[0].value)
+                    for u in uses:
+                        new = copy.deepcopy(lam)
+                        for parent in ast.walk(fn):
+                            done = False
+                            for f2, val in ast.iter_fields(parent):
+                                if val is u:
+                                    setattr(parent, f2, ast.copy_location(new, u))
+                                    done = True
+                                elif isinstance(val, list):
+                                    for i, x in enumerate(val):
+                                        if x is u:
+                                            val[i] = ast.copy_location(new, u)
+                                            done = True
+                            if done:
+                                break
+                    body.remove(st)
+                    if not body:
+                        body.append(ast.copy_location(ast.Pass(), st))
+                    total += 1
+    # the same for a new module-level function that is only handed on as a value (`reduce(_add, xs)`)
+    for st in list(tree.body):
+        if not (isinstance(st, ast.FunctionDef) and st.name not in known and not st.decorator_list and st.name.startswith('_')):
+            continue
+        inner = st.body[1:] if _has_doc(st.body) else st.body
+        a = st.args
+        if len(inner) != 1 or not isinstance(inner[0], ast.Return) or inner[0].value is None or a.vararg or a.kwarg or a.kwonlyargs or a.posonlyargs or a.defaults:
+            continue
+        params = {x.arg for x in a.args}
+        free = {x.id for x in ast.walk(inner[0].value) if isinstance(x, ast.Name)} - params
+        if free:
+            continue                                           # reads module state: leave it alone
+        uses = [x for x in ast.walk(tree) if isinstance(x, ast.Name) and x.id == st.name and isinstance(x.ctx, ast.Load)]
+        called = [c for c in ast.walk(tree) if isinstance(c, ast.Call) and isinstance(c.func, ast.Name) and c.func.id == st.name]
+        rebound = [x for x in ast.walk(tree) if (isinstance(x, ast.Name) and x.id == st.name and isinstance(x.ctx, (ast.Store, ast.Del))) or
+                   (isinstance(x, (ast.FunctionDef, ast.ClassDef)) and x.name == st.name and x is not st) or (isinstance(x, ast.arg) and x.arg == st.name)]
+        if not uses or called or rebound:
+            continue
+        lam = ast.Lambda(args=copy.deepcopy(a), body=inner[0].value)
+        for u in uses:
+            new = copy.deepcopy(lam)
+            for parent in ast.walk(tree):
+                done = False
+                for f2, val in ast.iter_fields(parent):
+                    if val is u:
+                        setattr(parent, f2, ast.copy_location(new, u))
+                        done = True
+                    elif isinstance(val, list):
+                        for i, x in enumerate(val):
+                            if x is u:
+                                val[i] = ast.copy_location(new, u)
+                                done = True
+                if done:
+                    break
+        tree.body.remove(st)
+        total += 1
+    return total
+
+
 def restore_closures_from_objects(tree, ref):
     """A nested function of the reference that became a small callable-object class: `h = K(a, b)` ... `h.m` where K.__init__ only
     stores its arguments and m is K's only other method  ->  the nested function again, with a, b captured.  The object keeps the values
@@ -2580,6 +2670,14 @@ def shape_of(tree):
         'whiles': {q: while_texts(f) for q, f in functions(tree) if while_texts(f)},
         'else_defaults': {q: else_default_texts(f) for q, f in functions(tree) if else_default_texts(f)},
         'default_binds': {q: default_bind_texts(f) for q, f in functions(tree) if default_bind_texts(f)},
+        'kwcalls': {q: keyword_call_texts(f) for q, f in functions(tree) if keyword_call_texts(f)},
+        'constexprs': {q: const_expr_texts(f) for q, f in functions(tree) if const_expr_texts(f)},
+        'intlits': {q: int_literals(f) for q, f in functions(tree) if int_literals(f)},
+        'augs': {q: aug_forms(f) for q, f in functions(tree) if aug_forms(f)},
+        'raises': {q: sorted({_txt(r.exc) for r in _fn_walk(f) if isinstance(r, ast.Raise) and r.exc is not None}) for q, f in functions(tree)
+                   if any(isinstance(r, ast.Raise) and r.exc is not None for r in _fn_walk(f))},
+        'listtargets': {q: sorted({_txt(t) for a in _fn_walk(f) if isinstance(a, ast.Assign) for t in a.targets if isinstance(t, ast.List)}) for q, f in functions(tree)
+                        if any(isinstance(t, ast.List) for a in _fn_walk(f) if isinstance(a, ast.Assign) for t in a.targets)},
     }
 
 
@@ -2593,6 +2691,338 @@ def call_counts(fn):
                 out[t] = out.get(t, 0) + 1
     return out
 
+
+
+# ---------------------------------------------------------------------------------------------- keyword arguments
+def keyword_call_texts(fn):
+    """['callee(k1,k2)', ..] of the calls that pass keyword arguments (own scope)"""
+    out = set()
+    for n in _own_walk(fn):
+        if isinstance(n, ast.Call) and n.keywords and all(k.arg for k in n.keywords):
+            out.add('%s(%s)' % (_txt(n.func)[:60], ','.join(k.arg for k in n.keywords)))
+    return sorted(out)
+
+
+_SIGS = {}
+
+
+def _package_signatures(model):
+    """{name: set of parameter-name tuples} for every function / method / class constructor of the package (self / cls dropped).
+    A callee is resolved by NAME only when every definition of that name in the package has the same parameter list."""
+    key = (getattr(model, 'root', None), hash(tuple(sorted((k, hash(v)) for k, v in getattr(model, 'overlay', {}).items()))))
+    if key in _SIGS:
+        return _SIGS[key]
+    sigs = {}
+
+    def sig(fn, method):
+        a = fn.args
+        if a.vararg or a.kwarg or a.posonlyargs:
+            return None
+        ps = [x.arg for x in a.args]
+        static = any(_txt(d) == 'staticmethod' for d in fn.decorator_list)
+        if method and not static:
+            ps = ps[1:]
+        return tuple(ps)
+
+    def add(name, val):
+        sigs.setdefault(name, set()).add(val)
+
+    def scan(tree):
+        for st in tree.body:
+            if isinstance(st, ast.FunctionDef):
+                add(st.name, sig(st, False))
+        for n in ast.walk(tree):
+            if isinstance(n, ast.ClassDef):
+                init = None
+                for st in n.body:
+                    if isinstance(st, ast.FunctionDef):
+                        add('.' + st.name, sig(st, True))
+                        if st.name == '__init__':
+                            init = st
+                add(n.name, sig(init, True) if init is not None else None)
+    root = key[0]
+    srcs = []
+    if root:
+        import glob as _glob
+        for pkg in ('cflib', 'lpslib'):
+            for f in sorted(_glob.glob(os.path.join(root, pkg, '**', '*.py'), recursive=True)):
+                rel = os.path.relpath(f, root)
+                if rel in getattr(model, 'overlay', {}):
+                    continue
+                try:
+                    srcs.append(open(f, encoding='utf-8').read())
+                except OSError:
+                    pass
+    srcs += list(getattr(model, 'overlay', {}).values())
+    for src in srcs:
+        try:
+            scan(ast.parse(src))
+        except SyntaxError:
+            pass
+    _SIGS[key] = sigs
+    return sigs
+
+
+def positionalise_keywords(tree, ref, model):
+    """`pk.set_header(port=5, channel=CHAN)` -> `pk.set_header(5, CHAN)`: a call that names its arguments where the reference function
+    made no such call is written positionally, when the callee is a function of this package whose parameter list is known (every
+    definition of that name in the package has the same one), the named parameters directly follow the positional ones and the
+    argument expressions are simple when their order changes."""
+    if model is None or 'kwcalls' not in ref:
+        return 0
+    sigs = _package_signatures(model)
+    rk = ref.get('kwcalls', {})
+    n = 0
+    anywhere = {t for ts in rk.values() for t in ts}             # a spelling some reference function of this module uses may arrive through a new helper
+    ref_funcs = set(ref.get('funcs', []))
+    for q, f in functions(tree):
+        known = set(rk.get(q, ())) | (anywhere if q not in ref_funcs else set())
+        for c in _own_walk(f):
+            if not (isinstance(c, ast.Call) and c.keywords and all(k.arg for k in c.keywords)) or any(isinstance(a, ast.Starred) for a in c.args):
+                continue
+            if '%s(%s)' % (_txt(c.func)[:60], ','.join(k.arg for k in c.keywords)) in known:
+                continue
+            fn = c.func
+            if isinstance(fn, ast.Name):
+                cand = sigs.get(fn.id)
+            elif isinstance(fn, ast.Attribute) and not (isinstance(fn.value, ast.Call) and _txt(fn.value.func) == 'super') and fn.attr != '__init__':
+                cand = sigs.get('.' + fn.attr)
+                if cand is None and isinstance(fn.value, ast.Name) and fn.value.id[:1].isupper():
+                    cand = None
+            else:
+                cand = None
+            if not cand or len(cand) != 1 or None in cand:
+                continue
+            params = list(next(iter(cand)))
+            kw = {k.arg: k.value for k in c.keywords}
+            if not set(kw) <= set(params):
+                continue
+            i = len(c.args)
+            moved = []
+            while i < len(params) and params[i] in kw:
+                moved.append(params[i])
+                i += 1
+            if not moved:
+                continue
+            in_order = [k.arg for k in c.keywords][:len(moved)] == moved
+            if not in_order and not all(_simple_arg(v) for v in kw.values()):
+                continue
+            c.args = list(c.args) + [kw[m] for m in moved]
+            c.keywords = [k for k in c.keywords if k.arg not in moved]
+            n += 1
+    return n
+
+
+# ---------------------------------------------------------------------------------------------- spelling
+def _fn_walk(fn):
+    """walk a function including its lambdas, excluding nested function / class definitions"""
+    yield fn
+    todo = list(ast.iter_child_nodes(fn))
+    while todo:
+        n = todo.pop()
+        if isinstance(n, (ast.FunctionDef, ast.AsyncFunctionDef, ast.ClassDef)):
+            continue
+        yield n
+        todo.extend(ast.iter_child_nodes(n))
+
+
+_INT_OPS = {ast.Add: lambda a, b: a + b, ast.Sub: lambda a, b: a - b, ast.Mult: lambda a, b: a * b, ast.LShift: lambda a, b: a << b if 0 <= b < 64 else None,
+            ast.RShift: lambda a, b: a >> b if 0 <= b < 64 else None, ast.BitOr: lambda a, b: a | b, ast.BitAnd: lambda a, b: a & b, ast.BitXor: lambda a, b: a ^ b}
+
+
+def _const_value(e):
+    """('int', v) / ('bytes', b'..') / ('ints', (..)) for an expression built from literals only, else None"""
+    if isinstance(e, ast.Constant):
+        if isinstance(e.value, bool):
+            return None
+        if isinstance(e.value, int):
+            return ('int', e.value)
+        if isinstance(e.value, bytes):
+            return ('bytes', e.value)
+        return None
+    if isinstance(e, ast.BinOp) and type(e.op) in _INT_OPS:
+        a, b = _const_value(e.left), _const_value(e.right)
+        if a and b and a[0] == 'int' and b[0] == 'int':
+            v = _INT_OPS[type(e.op)](a[1], b[1])
+            return ('int', v) if v is not None and abs(v) < (1 << 70) else None
+        return None
+    if isinstance(e, ast.UnaryOp) and isinstance(e.op, (ast.USub, ast.Invert)):
+        a = _const_value(e.operand)
+        if a and a[0] == 'int':
+            return ('int', -a[1] if isinstance(e.op, ast.USub) else ~a[1])
+        return None
+    if isinstance(e, (ast.Tuple, ast.List)) and e.elts and isinstance(getattr(e, 'ctx', None), ast.Load):
+        vs = [_const_value(x) for x in e.elts]
+        if all(v and v[0] == 'int' for v in vs):
+            return ('ints', tuple(v[1] for v in vs))
+        return None
+    if isinstance(e, ast.Call) and isinstance(e.func, ast.Name) and e.func.id in ('bytes', 'bytearray') and len(e.args) == 1 and not e.keywords:
+        a = _const_value(e.args[0])
+        try:
+            if a and a[0] == 'bytes':
+                return (e.func.id, bytes(a[1]))
+            if a and a[0] == 'ints':
+                return (e.func.id, bytes(a[1]))
+        except ValueError:
+            return None
+    return None
+
+
+def _is_spelled(e):
+    """a constant expression that is more than one literal"""
+    return not isinstance(e, (ast.Constant, ast.Tuple, ast.List)) and _const_value(e) is not None
+
+
+def _max_const_exprs(fn):
+    out = []
+    todo = list(ast.iter_child_nodes(fn))
+    while todo:
+        n = todo.pop()
+        if isinstance(n, (ast.FunctionDef, ast.AsyncFunctionDef, ast.ClassDef)):
+            continue
+        if isinstance(n, ast.expr) and _is_spelled(n):
+            out.append(n)
+            continue
+        todo.extend(ast.iter_child_nodes(n))
+    return out
+
+
+def const_expr_texts(fn):
+    return {_txt(e): repr(_const_value(e)) for e in _max_const_exprs(fn)}
+
+
+def int_literals(fn):
+    inside = {id(x) for e in _max_const_exprs(fn) for x in ast.walk(e)}
+    return sorted({n.value for n in _fn_walk(fn) if isinstance(n, ast.Constant) and isinstance(n.value, int) and not isinstance(n.value, bool) and id(n) not in inside})
+
+
+def aug_forms(fn):
+    """['+=:target', '=+:target', ..]: augmented assignments and their spelled-out forms `T = T op V`"""
+    out = set()
+    for n in _fn_walk(fn):
+        if isinstance(n, ast.AugAssign):
+            out.add('%s=:%s' % (type(n.op).__name__, _txt(n.target)))
+        elif isinstance(n, ast.Assign) and len(n.targets) == 1 and isinstance(n.value, ast.BinOp) and _txt(n.value.left) == _txt(n.targets[0]):
+            out.add('=%s:%s' % (type(n.value.op).__name__, _txt(n.targets[0])))
+    return sorted(out)
+
+
+def respell(tree, ref):
+    """Spelling only: (1) a constant expression the reference function does not contain (`1 << 4`, `bytearray(b'\\x00')`) is written
+    like the reference's expression of the same value if there is exactly one, else as the plain number; a plain number the reference
+    function never writes, whose value the reference spells as one expression (`(1 << 9) - 1`), is written that way; (2) `T = T op V`
+    <-> `T op= V` follows the reference's form for that target and operator (numbers and strings only: for `+` the target must be
+    bound to a number / string literal somewhere in the function); (3) `raise E()` <-> `raise E`; (4) `[a, b] = ..` <-> `a, b = ..`."""
+    if 'constexprs' not in ref:
+        return 0
+    n = 0
+    for q, f in functions(tree):
+        rce = ref['constexprs'].get(q, {})
+        rl = set(ref.get('intlits', {}).get(q, []))
+        byval = {}
+        for t, v in rce.items():
+            byval.setdefault(v, []).append(t)
+        have = set()
+        for e in _max_const_exprs(f):
+            have.add(_txt(e))
+
+        def repl(old, new_node):
+            for parent in _fn_walk(f):
+                for fld, val in ast.iter_fields(parent):
+                    if val is old:
+                        setattr(parent, fld, ast.copy_location(new_node, old))
+                        return True
+                    if isinstance(val, list):
+                        for i, x in enumerate(val):
+                            if x is old:
+                                val[i] = ast.copy_location(new_node, old)
+                                return True
+            return False
+        for e in _max_const_exprs(f):
+            t = _txt(e)
+            if t in rce:
+                continue
+            v = _const_value(e)
+            cands = [c for c in byval.get(repr(v), []) if c not in have]
+            if len(byval.get(repr(v), [])) == 1 and cands:
+                if repl(e, ast.parse(cands[0], mode='eval').body):
+                    have.add(cands[0])
+                    n += 1
+            elif v[0] == 'int':
+                if repl(e, ast.Constant(value=v[1])):
+                    n += 1
+        # plain numbers that the reference spells as an expression
+        have = {_txt(e) for e in _max_const_exprs(f)}
+        inside = {id(x) for e in _max_const_exprs(f) for x in ast.walk(e)}
+        for c in [x for x in _fn_walk(f) if isinstance(x, ast.Constant) and isinstance(x.value, int) and not isinstance(x.value, bool) and id(x) not in inside]:
+            if c.value in rl:
+                continue
+            ts = byval.get(repr(('int', c.value)), [])
+            if len(ts) == 1 and ts[0] not in have:
+                if repl(c, ast.parse(ts[0], mode='eval').body):
+                    n += 1
+        # augmented forms
+        ra = set(ref.get('augs', {}).get(q, []))
+        lit_bound = set()
+        for a in _fn_walk(f):
+            if isinstance(a, ast.Assign) and isinstance(a.value, ast.Constant) and isinstance(a.value.value, (int, float, str, bytes)) and not isinstance(a.value.value, bool):
+                for t in a.targets:
+                    lit_bound.add(_txt(t))
+        for node in list(_fn_walk(f)):
+            for fld in ('body', 'orelse', 'finalbody'):
+                body = getattr(node, fld, None)
+                if not isinstance(body, list):
+                    continue
+                for i, st in enumerate(body):
+                    if isinstance(st, ast.Assign) and len(st.targets) == 1 and isinstance(st.value, ast.BinOp) and _txt(st.value.left) == _txt(st.targets[0]):
+                        T, op = _txt(st.targets[0]), type(st.value.op).__name__
+                        if '=%s:%s' % (op, T) in ra or '%s=:%s' % (op, T) not in ra:
+                            continue
+                        if op in ('Add', 'Mult') and T not in lit_bound:
+                            continue
+                        tgt = copy.deepcopy(st.targets[0])
+                        body[i] = ast.copy_location(ast.AugAssign(target=tgt, op=st.value.op, value=st.value.right), st)
+                        n += 1
+                    elif isinstance(st, ast.AugAssign):
+                        T, op = _txt(st.target), type(st.op).__name__
+                        if '%s=:%s' % (op, T) in ra or '=%s:%s' % (op, T) not in ra:
+                            continue
+                        if op in ('Add', 'Mult') and T not in lit_bound:
+                            continue
+                        left = copy.deepcopy(st.target)
+                        for x in ast.walk(left):
+                            if hasattr(x, 'ctx'):
+                                x.ctx = ast.Load()
+                        body[i] = ast.copy_location(ast.Assign(targets=[st.target], value=ast.BinOp(left=left, op=st.op, right=st.value)), st)
+                        n += 1
+        # raise E() / raise E
+        rr = set(ref.get('raises', {}).get(q, []))
+        for r in _fn_walk(f):
+            if isinstance(r, ast.Raise) and r.exc is not None and _txt(r.exc) not in rr:
+                if isinstance(r.exc, ast.Call) and not r.exc.args and not r.exc.keywords and isinstance(r.exc.func, ast.Name) and r.exc.func.id in rr:
+                    r.exc = r.exc.func
+                    n += 1
+                elif isinstance(r.exc, ast.Name) and (r.exc.id + '()') in rr:
+                    r.exc = ast.copy_location(ast.Call(func=r.exc, args=[], keywords=[]), r.exc)
+                    n += 1
+        # list targets
+        lt = set(ref.get('listtargets', {}).get(q, []))
+        lt_ar = set()                                        # by arity as well: the locals may have been renamed (alpha runs later)
+        for t_ in lt:
+            try:
+                lt_ar.add(len(ast.parse(t_, mode='eval').body.elts))
+            except (SyntaxError, AttributeError):
+                pass
+        for a in _fn_walk(f):
+            if isinstance(a, ast.Assign):
+                for i, t in enumerate(a.targets):
+                    if isinstance(t, ast.List) and _txt(t) not in lt and len(t.elts) not in lt_ar:
+                        a.targets[i] = ast.copy_location(ast.Tuple(elts=t.elts, ctx=ast.Store()), t)
+                        n += 1
+                    elif isinstance(t, ast.Tuple) and ('[%s]' % ', '.join(_txt(e) for e in t.elts)) in lt:
+                        a.targets[i] = ast.copy_location(ast.List(elts=t.elts, ctx=ast.Store()), t)
+                        n += 1
+    return n
 
 # ---------------------------------------------------------------------------------------------- helpers
 class _Subst(ast.NodeTransformer):
@@ -4558,8 +4988,8 @@ def normalise(tree, path, ref_locals, model=None):
     out = {}
     for name, fn in (('moved', lambda: pull_back_moved(tree, ref, path, model) + drop_moved_away(tree, ref, path, model)), ('match', lambda: lower_match(tree, ref)), ('eafp', lambda: undo_eafp_probes(tree, ref)), ('getnone', lambda: undo_get_none_tests(tree, ref, ref_locals)), ('iadd', lambda: extend_as_iadd(tree, ref)), ('enums', lambda: dissolve_enums(tree, ref)), ('namedtuples', lambda: dissolve_namedtuples(tree, ref, path, model)), ('regroup', lambda: regroup_indexed_reads(tree, ref, ref_locals)), ('dataclasses', lambda: undo_dataclasses(tree, ref)), ('dispatch', lambda: undo_dispatch_tables(tree, ref)),
                      ('annotations', lambda: strip_annotations(tree, ref)), ('imports', lambda: normalise_imports(tree, ref)), ('attributes', lambda: rename_attributes(tree, ref)),
-                     ('methods', lambda: rename_methods(tree, ref)), ('formats', lambda: restyle_formats(tree, ref)), ('closures', lambda: restore_closures(tree, ref) + restore_closures_from_objects(tree, ref)), ('self', lambda: restore_self(tree, ref)), ('tuples', lambda: split_tuple_bindings(tree, ref)), ('suppress', lambda: expand_suppress(tree, ref)), ('constants', lambda: _constants(tree, ref)),
-                     ('boolindex', lambda: undo_bool_indexing(tree, ref)), ('observability', lambda: drop_observability(tree, ref)), ('params', lambda: default_new_params(tree, ref) + default_new_params(tree, ref)), ('initliterals', lambda: inline_init_literals(tree, ref)),
+                     ('methods', lambda: rename_methods(tree, ref)), ('formats', lambda: restyle_formats(tree, ref)), ('spelling', lambda: respell(tree, ref)), ('closures', lambda: restore_closures(tree, ref) + restore_closures_from_objects(tree, ref) + unname_lambdas(tree, ref)), ('self', lambda: restore_self(tree, ref)), ('tuples', lambda: split_tuple_bindings(tree, ref)), ('suppress', lambda: expand_suppress(tree, ref)), ('constants', lambda: _constants(tree, ref)),
+                     ('boolindex', lambda: undo_bool_indexing(tree, ref)), ('observability', lambda: drop_observability(tree, ref)), ('params', lambda: default_new_params(tree, ref) + default_new_params(tree, ref)), ('kwargs', lambda: positionalise_keywords(tree, ref, model)), ('initliterals', lambda: inline_init_literals(tree, ref)),
                      ('structs', lambda: inline_struct_objects(tree, ref)),
                      ('anytests', lambda: lower_any_tests(tree, ref)), ('itertools', lambda: undo_iteration_tools(tree, ref) + undo_iteration_tools(tree, ref)), ('loops', lambda: reshape_loops(tree, ref, ref_locals)), ('helpers', lambda: inline_helpers(tree, ref)), ('namedtuples2', lambda: dissolve_namedtuples(tree, ref, path, model)), ('records', lambda: scalarise_records(tree, ref)), ('tuplevars', lambda: scalarise_tuple_locals(tree, ref, ref_locals)), ('elsedefaults', lambda: hoist_else_defaults(tree, ref)), ('ifexps0', lambda: expand_ifexps(tree, ref)), ('flagtails', lambda: sink_flag_tails(tree, ref, ref_locals)), ('decided', lambda: fold_decided_branches(tree, ref)), ('trivia', lambda: drop_trivia(tree, ref)), ('ifexps', lambda: expand_ifexps(tree, ref)), ('boolreturns', lambda: expand_bool_returns(tree, ref)),
                      ('unrolled', lambda: unroll_loops(tree, ref)), ('builtlists', lambda: scalarise_built_lists(tree, ref, ref_locals)),
